@@ -15,7 +15,8 @@ PROP = "C18"
 CONFIG = worlda.base_config(
     rule="World B: the real front-end (IMAPServer/IMAPClient/PreAuthenticated/POP3 front-end/throttle/auth, password file with iteration-1 PBKDF2 hashes incl. "
     "a disabled '!' hash and a user without mail directory) under a virtual clock. 2-4 client addresses x 2-4 user names issue timed sequences of LOGIN and "
-    "USER/PASS attempts (right, wrong, empty password; gaps from {0,1,30,59,61,119,121 s} +- jitter, several connections concurrently) and, before "
+    "USER/PASS attempts (right, wrong, empty password, and - in 35% of the runs, where an administrator task rewrites the password file at seeded times, "
+    "also moving a file with an older mtime into place - the previous and the current password; gaps from {0,1,30,59,61,119,121 s} +- jitter, several connections concurrently) and, before "
     "authenticating, every post-authentication verb. Oracles: (gate) before a successful login no user process is launched, no relay connection opened, no "
     "path under any mail root touched by front-end tasks, every such command refused, wrong/empty/disabled passwords never authenticate; (throttle) a "
     "reference automaton written from the statement (count restarts after >60 s without failure; locked iff user count > 4 or address count > 5 within "
@@ -145,6 +146,38 @@ def execute(program, opts):
 
     authed = set()  # connection ids that have authenticated
     results = []
+    # passwords change while the server runs: the administrator rewrites the password file
+    pwnow = {u: USERS[u].get("password") for u in program["users"]}
+    changes = []  # (virtual time, user)
+
+    def pw_right(user, pw):
+        return pwnow.get(user) is not None and pw == pwnow[user]
+
+    async def admin():
+        import asimap.hashers as hashers
+
+        path = os.path.join(ctx.jail, "passwords.txt")
+        t_prev = 0.0
+        for ch in sorted(program.get("chpass", []), key=lambda c: c["t"]):
+            await asyncio.sleep(max(0.0, ch["t"] - t_prev))
+            t_prev = ch["t"]
+            if ch["user"] not in pwnow or pwnow[ch["user"]] is None:
+                continue
+            st0 = os.stat(path)
+            pwnow[ch["user"]] = ch["pw"]
+            fe.users[ch["user"]] = dict(fe.users[ch["user"]], password=ch["pw"])
+            tmp = path + ".new"
+            with open(tmp, "w") as f:
+                for name, u in fe.users.items():
+                    h = u["hash"] if u.get("hash") is not None else hashers.make_password(u["password"])
+                    f.write(f"{name}:{h}:{fe.maildir(name)}\n")
+            if ch.get("mtime") == "older":
+                # a file prepared earlier (or restored from a backup) and moved into place keeps its older mtime
+                os.utime(tmp, (st0.st_mtime - 3600.0, st0.st_mtime - 3600.0))
+            os.replace(tmp, path)
+            changes.append((env.vnow(), ch["user"]))
+            env.fired("password_changed")
+            ctx.probe("password_changed_" + ch.get("mtime", "now"))
 
     async def imap_conn(cid, conn):
         s = RawImapSession(world, cid, conn["addr"])
@@ -169,7 +202,12 @@ def execute(program, opts):
                     V(PROP, "preauth_access", conn=cid, cmd=step["line"][:40], events=mine[:5])
             elif step["op"] == "login":
                 user, pw = step["user"], step["pw"]
-                right = USERS.get(user, {}).get("password") is not None and pw == USERS[user]["password"]
+                if pw == "@current":
+                    pw = pwnow.get(user) or "nopw"
+                elif pw == "@previous":
+                    pw = USERS.get(user, {}).get("password") or "nopw"
+                right = pw_right(user, pw)
+                n_chg = len(changes)
                 n_dec = len(decisions)
                 n_fail = len(fail_calls)
                 r = await s.command(f'LOGIN {user} "{pw}"' if pw != "" else f'LOGIN {user} ""', timeout=90.0)
@@ -178,6 +216,10 @@ def execute(program, opts):
                 if r.status is None:
                     results.append((cid, user, "none"))
                     continue
+                if any(c[1] == user for c in changes[n_chg:]):
+                    if r.ok:
+                        ok_login = True
+                    continue  # the password changed while the attempt was in flight: either answer is right
                 dec = [d for d in decisions[n_dec:] if d[4] == me] or None
                 if ok_login:
                     continue  # already authenticated: forwarded to the user process
@@ -235,14 +277,23 @@ def execute(program, opts):
                 if ok_login:
                     continue
                 user, pw = step["user"], step["pw"]
-                right = USERS.get(user, {}).get("password") is not None and pw == USERS[user]["password"]
+                if pw == "@current":
+                    pw = pwnow.get(user) or "nopw"
+                elif pw == "@previous":
+                    pw = USERS.get(user, {}).get("password") or "nopw"
+                right = pw_right(user, pw)
                 await p.cmd(f"USER {user}")
+                n_chg = len(changes)
                 n_dec = len(decisions)
                 n_fail = len(fail_calls)
                 ln = await p.cmd(f"PASS {pw}")
                 C("c18_login_attempt")
                 ctx.sig(cid, "pass", user, right, None if ln is None else ln[:3])
                 if ln is None:
+                    continue
+                if any(c[1] == user for c in changes[n_chg:]):
+                    if ln.startswith(b"+OK"):
+                        ok_login = True
                     continue
                 dec = [d for d in decisions[n_dec:] if d[4] == me]
                 allowed = dec[0][3] if dec else True
@@ -267,6 +318,8 @@ def execute(program, opts):
         await fe.start()
         FS.access = rec
         tasks = []
+        if program.get("chpass"):
+            tasks.append(loop.create_task(admin(), name="admin"))
         for i, conn in enumerate(program["conns"]):
             cid = f"c{i}"
             coro = imap_conn(cid, conn) if conn["proto"] == "imap" else pop_conn(cid, conn)
@@ -332,7 +385,18 @@ def generate(seed, tier, index, kf):
             else:
                 steps.append({"op": "post", "gap": gap, "line": r.choice(("SELECT inbox", "LIST \"\" *", "NOOP"))})
         conns.append({"proto": proto, "addr": addr, "start": r.choice((0.0, 0.0, 0.1, 5.0, 40.0)), "steps": steps})
-    return {"format": 1, "seed": seed, "world": "B", "users": users, "conns": conns, "latency": {"exec": r.choice(("zero", "small", "bimodal")), "db": "zero", "net": r.choice(("zero", "small", "bimodal"))},
+    chpass = []
+    if r.random() < 0.35:
+        # the administrator changes a password while the server runs; later attempts use the old and the new one
+        for _ in range(r.randint(1, 2)):
+            u = r.choice([x for x in users if USERS[x].get("password")])
+            chpass.append({"t": r.choice((3.0, 20.0, 70.0, 130.0)), "user": u, "pw": f"{u}new{len(chpass)}", "mtime": r.choice(("now", "now", "older"))})
+        for c in conns:
+            for st in c["steps"]:
+                if st["op"] == "login" and r.random() < 0.5:
+                    st["user"] = r.choice(chpass)["user"]
+                    st["pw"] = r.choice(("@current", "@previous", "@previous"))
+    return {"format": 1, "seed": seed, "world": "B", "users": users, "conns": conns, "chpass": chpass, "latency": {"exec": r.choice(("zero", "small", "bimodal")), "db": "zero", "net": r.choice(("zero", "small", "bimodal"))},
             "ops": [], "props": [PROP]}
 
 
